@@ -17,10 +17,12 @@ func (x *Exec) execCall(f *Frame, i *ssa.Call) {
 	c := &i.Call
 	if b, ok := c.Value.(*ssa.Builtin); ok {
 		x.execBuiltin(f, i, b)
+		x.afterCallAt(f, i)
 		return
 	}
 	if c.IsInvoke() {
 		x.execInvoke(f, i)
+		x.afterCallAt(f, i)
 		return
 	}
 	callee := c.StaticCallee()
@@ -57,7 +59,33 @@ func (x *Exec) execCall(f *Frame, i *ssa.Call) {
 	}
 	res := x.callStatic(f, callee, args, binds, c.Args, i.Pos())
 	x.bindCallResult(f, i, callee.Signature, res)
-	x.afterCall(f, callee.Name())
+	x.afterCallAt(f, i)
+}
+
+// afterCallAt runs the contract's mid-function clauses anchored after this call instruction:
+// ghost updates first, then assertions (proved, then assumed).
+func (x *Exec) afterCallAt(f *Frame, i *ssa.Call) {
+	if !f.top || x.con == nil || (len(x.con.Asserts) == 0 && len(x.con.GhostUpd) == 0) {
+		return
+	}
+	name, k := x.staticCallOrdinal(f, i)
+	for _, gu := range x.con.GhostUpd {
+		if gu.Callee != name || gu.K != k {
+			continue
+		}
+		g := x.ghostVar(gu.Name)
+		if g == nil {
+			x.fail("ghost update of undeclared ghost %s", gu.Name)
+		}
+		env := x.newEnv(x.localVars(f), x.cur, x.entry)
+		v := env.Tr(gu.Value)
+		gt := x.parseSpecType(g.Type, token.NoPos)
+		if v.T.Sort != gt.sort {
+			x.fail("ghost update %s: value of sort %s, declared %s", gu.Src, v.T.Sort, gt.sort)
+		}
+		x.cur.heaps[x.ghostHeap(gu.Name)] = x.b.Def("gv_"+gu.Name, v.T)
+	}
+	x.afterCallNamed(f, name, k)
 }
 
 // afterCall proves and then assumes the contract's mid-function assertions placed after this call.
@@ -70,6 +98,10 @@ func (x *Exec) afterCall(f *Frame, name string) {
 	}
 	k := x.callCount[name]
 	x.callCount[name] = k + 1
+	x.afterCallNamed(f, name, k)
+}
+
+func (x *Exec) afterCallNamed(f *Frame, name string, k int) {
 	for _, a := range x.con.Asserts {
 		if a.Callee != name || a.K != k {
 			continue
